@@ -13,7 +13,7 @@ import (
 )
 
 // the last three are deeper than tequila.Level (7): the package merge cuts them at that level
-var c13Pkgs = []string{"a", "ab", "bc", "c", "a.b.c", "a.b.c.d.e.f.g.h", "a.b.c.d.e.f.g.i", "a.b.c.d.e.f.g"}
+var c13Pkgs = []string{"a", "ab", "bc", "c", "a.b.c", "a.b.c.d.e.f.g.h", "a.b.c.d.e.f.g.i", "a.b.c.d.e.f.g", "école.app", "中文.app"}
 var c13Rels = []string{"none", "implements", "extends", "field", "call", "call-from-main", "call+field"}
 
 type c13Type struct {
